@@ -172,7 +172,7 @@ def write_faults(mode):
     content is completely written, or it re-raises on the 10th failure."""
     ctx = context('core')
     ctx2 = cctx()
-    ctx2.lib.FAULT_OPS = {'open'}
+    ctx2.lib.FAULT_OPS = {'open', 'write'}
     info = {}
     try:
         def run(st):
@@ -202,8 +202,9 @@ def write_faults(mode):
         if p.kind == 'raise':
             ok = p.value.cls in ('OSError', 'FileExistsError', 'FileNotFoundError', 'UnicodeEncodeError')
             n_open_faults = sum(1 for e in p.state.trace if e[0] == 'FAULT')
+            write_fault = any(e[0] == 'FAULT' and e[1]['op'] == 'write' for e in p.state.trace)
             detail = 'raises %s after %d failed opens' % (p.value.cls, n_open_faults)
-            if p.value.cls != 'UnicodeEncodeError':
+            if p.value.cls != 'UnicodeEncodeError' and not write_fault:
                 tries = sum(1 for e in p.state.trace if e[0] == 'MAKEDIRS')
                 ok = ok and tries == 10
                 detail += ' (%d tries)' % tries
